@@ -2,7 +2,7 @@
 """Regenerates /verif/MANIFEST.json from the table below (single source for the per-check text)."""
 import json, os, subprocess
 
-HOOK_COMMITS = ["a31c321"]
+HOOK_COMMITS = ["a31c321"]  # hooks; fix commits: 2f13293 bbf3167 cdae486 7808df8 c7ae102 872f7eb a82d6c9 ba93a14 8681ec9
 C14_ENGINE = "c14"
 
 CHECKS = {
